@@ -9,6 +9,7 @@ mkdir -p .work evidence replays
 for p in tools/gen_*.py; do
   case "$p" in
     tools/gen_keys.py) python3 "$p" "$REPO" lean/IndicatifModel/Generated/Keys.lean ;;
+    tools/gen_atomics.py) python3 "$p" "$REPO" lean/IndicatifModel/Generated/Atomics.lean ;;
   esac
 done
 ( cd lean
